@@ -279,6 +279,12 @@ def run(ctx):
   if ok:
     w = witness(g, vw[0][0].id, [g.exit.id], avoid=[n.id for n, _ in lw])
     ok = w is None
+  # ... and no path returns normally without writing the value at all (no "already bound" fast path)
+  w0 = witness(g, g.entry.id, [g.exit.id], avoid=[n.id for n, _ in vw])
+  ctx.check(w0 is None, 'C16.provenance', construct(bp), 'every successful bind writes the value (no early return)',
+            'bind_parameter can return without writing the value / its location (an early return): re-binding a parameter to a value that merely compares '
+            'equal (1 vs True, references that differ only in scope) is dropped, so the most recent statement does not win and provenance is stale',
+            bp.loc(), instance='always-writes', path=describe_path(g, w0) if w0 else None)
   same = ok and all(u(a.ast.targets[0].slice) == u(vw[0][0].ast.targets[0].slice) for a, _ in lw) and \
       all(d.split('(', 1)[1] == vw[0][1].split('(', 1)[1] for _, d in lw) and \
       all(u(a.ast.value) == 'location' for a, _ in lw)
@@ -292,6 +298,10 @@ def run(ctx):
     ctx.check(cl == {'_CONFIG', '_CONFIG_PROVENANCE'}, 'C16.provenance', construct(f), 'bindings and provenance are cleared together',
               '%s clears %s only' % (f.name, sorted(cl)), f.loc(), instance='clear-together')
 
+  from .common import allowed_stores
+  allowed_stores(ctx, 'C16.propagate', {'config.parse_config_file': {'_LOCATION_PREFIXES', '_FILE_READERS'}, 'config.parse_config': {'_IMPORTS'},
+                                        'config._parse_scope': {'_PARSE_CONTEXTS'}},
+                 'state remembered by the parse entry points across calls (files "in progress", includes seen) must be undone on every exit, or a later parse behaves differently from a fresh process')
   # ---- C16.propagate: a failure inside a file or statement is not swallowed and the search / loop does not go on
   for q in ('config.parse_config', 'config.parse_config_file', 'config.parse_config_files_and_bindings', 'config.bind_parameter'):
     fn = ctx.func(q)
